@@ -83,6 +83,9 @@ def run_property(spec):
                 obligations.append(("proof", "theorem:" + t, not bad,
                                     "closed under the global context" if not bad
                                     else "depends on " + ", ".join(bad)))
+    if proofs_ok and lib.tier() == "thorough":
+        ok, summary = lib.coqchk(spec["module"])
+        obligations.append(("proof", "coqchk -o " + spec["module"], ok, summary))
     bad_tokens = lib.forbidden_tokens(spec["targets"])
     obligations.append(("proof", "no-admit-no-axiom-grep", not bad_tokens, "; ".join(bad_tokens)))
 
